@@ -79,7 +79,20 @@ def _env():
             self.inner = inner  # the stream the I/O holds when ask() is called, however it got there
             self.reads = 0  # read calls
             self.consumed = 0  # ... that returned a line
+            self.base = 0  # value of `consumed` when the input was last replaced (set / clear): reading restarts there
             self.budget = 0
+
+        # the string stream's own operations (BufferedIO.set_input / append_input / clear_input go through them)
+        def set(self, string):
+            self.inner.set(string)
+            self.base = self.consumed
+
+        def append(self, string):
+            self.inner.append(string)
+
+        def clear(self):
+            self.inner.clear()
+            self.base = self.consumed
 
         def read_line(self, length=None):
             self.reads += 1
@@ -331,11 +344,28 @@ class Session(object):
             self.flag = o["b"]
         return io
 
+    def reload(self, ops):
+        """calls made on the SAME I/O between two asks: the input is replaced / extended; they are reported with the next event"""
+        E = _env()
+        for o in ops:
+            o = dict(o)
+            self.call(self.io, o)
+            self.pending.append(o)
+            if o["op"] in ("set_input", "stream_set"):
+                self.lines = list(o["ls"])
+            elif o["op"] == "clear_input":
+                self.lines = []
+            elif o["op"] in ("append_input", "stream_append"):
+                self.lines = self.lines + list(o["ls"])
+        if self.io.input.stream is not self.ins:  # the I/O holds another stream now: the budget follows it
+            self.ins = E["BudgetIn"](self.io.input.stream)
+            self.io.input.set_stream(self.ins)
+
     def ask(self, qd, question=None, sess=1, obj=0, reask=False, callers_list=None):
         """asks the question (a fresh object unless one is given), returns the event record"""
         E = _env()
         ins, out, err = self.ins, self.out, self.err
-        start = ins.consumed
+        start = ins.consumed - ins.base
         r0 = ins.reads
         o0, e0 = len(out.fetch()), len(err.fetch())
         allow = (len(self.lines) - start) + qd["maxAtt"] + SLACK
@@ -372,7 +402,7 @@ class Session(object):
             "start": start,
             "obs": {
                 "kind": kind, "cls": cls, "val": proj(val),
-                "reads": min(ins.reads, ins.budget) - r0, "consumed": ins.consumed - start,
+                "reads": min(ins.reads, ins.budget) - r0, "consumed": ins.consumed - ins.base - start,
                 "errs": sum(1 for ln in etext.split("\n") if E["ERR"] in ln),
                 "prompts": etext.count(E["QST"]),
                 "outBytes": len(out.fetch()) - o0, "errBytes": len(etext),
@@ -431,10 +461,12 @@ def run_case(case):
                     if rc:
                         q, cl_, qd = objs[i]
                         objs[i] = (q, cl_, reconfigure(q, cl_, qd, rc))
+                    if isinstance(a, dict) and a.get("reload"):
+                        s.reload(a["reload"])
                 except (KeyboardInterrupt, Stalled):
                     raise
                 except Exception as e:  # noqa
-                    tr.append(failed_event(case["objects"][i], ses["lines"], s.pending, k + 1, i + 1, reask, e, s.ins.consumed))
+                    tr.append(failed_event(case["objects"][i], s.lines, s.pending, k + 1, i + 1, reask, e, s.ins.consumed - s.ins.base))
                     s.pending = []
                     continue
                 q, cl_, qd = objs[i]
@@ -468,6 +500,9 @@ def case_of(rec, pools):
         if rc == 2:
             return {"objects": [qd], "sessions": [{"lines": lines, "asks": [0, {"obj": 0, "reconf": {"multi": rec["m"]}}],
                                                    "route": _route(rec)}]}
+        if rc in (3, 4):  # a new, shorter script on the same I/O before the object is asked again
+            op = R("set_input", [x.replace("~", "\r") for x in rec["s2"]]) if rc == 3 else R("clear_input")
+            return {"objects": [qd], "sessions": [{"lines": lines, "asks": [0, {"obj": 0, "reload": [op]}], "route": _route(rec)}]}
     # rounds = 2: the same question object is asked twice on the one input
     return {"objects": [qd], "sessions": [{"lines": lines, "asks": [0] * rec["rounds"], "route": _route(rec)}]}
 
@@ -718,6 +753,7 @@ def rand_case(rng):
             asks.insert(rng.randint(1 if asks else 0, len(asks)), rng.randrange(len(objects)))
         # an object that is asked again may have been reconfigured by the caller in between
         seen_now, out_asks, lines = set(asked), [], []
+        first_lines, segments = lines, []
         for i in asks:
             a = i
             if i in seen_now and rng.random() < 0.35:
@@ -725,20 +761,33 @@ def rand_case(rng):
                 current[i] = describe_after(current[i], a["reconf"])
             seen_now.add(i)
             out_asks.append(a)
+            if out_asks[:-1] and rng.random() < 0.12:
+                # the script so far ends here; the same I/O gets another one (usually shorter than what will be asked)
+                segment = []
+                a = a if isinstance(a, dict) else {"obj": i}
+                out_asks[-1] = a
+                a["reload"] = segment_ops = []
+                segments.append((segment_ops, segment))
+                lines = segment
+                if rng.random() < 0.5:
+                    continue  # no line at all for this question
             for _ in range(rng.choice([0, 1, 1, 1, 2, 2, 3])):
                 lines.append(rand_line(rng, current[i]))
         asked |= seen_now
         if rng.random() < 0.3:  # plenty of input: the dialogues end before the input does
             lines += [rand_line(rng, current[asks[-1]]) for _ in range(3)]
-        sessions.append({"lines": lines, "asks": out_asks, "route": rand_route(rng, lines, objects[asks[0]]["interactive"] if asks else True)})
+        for ops, seg in segments:
+            ops.append(R("clear_input") if not seg and rng.random() < 0.5 else R(rng.choice(["set_input", "set_input", "stream_set"]), seg))
+        sessions.append({"lines": first_lines, "asks": out_asks,
+                         "route": rand_route(rng, first_lines, objects[asks[0]]["interactive"] if asks else True)})
     return {"objects": objects, "sessions": sessions}
 
 
 # ---------------------------------------------------------------------------------- check
 REASK = ("MC_Dialogue_reask.cfg", "same-object-asked-twice + caller-edits-the-list", 6000)
 MODEL_RUNS = {
-    "quick": [("MC_Dialogue_quick.cfg", "choice-dialogues", 50000), ("MC_Dialogue_misc.cfg", "plain-confirm-noninteractive", 1500), REASK],
-    "thorough": [("MC_Dialogue_quick.cfg", "choice-dialogues", 50000), ("MC_Dialogue_misc.cfg", "plain-confirm-noninteractive", 1500), REASK,
+    "quick": [("MC_Dialogue_quick.cfg", "choice-dialogues", 45000), ("MC_Dialogue_misc.cfg", "plain-confirm-noninteractive", 1500), REASK],
+    "thorough": [("MC_Dialogue_quick.cfg", "choice-dialogues", 45000), ("MC_Dialogue_misc.cfg", "plain-confirm-noninteractive", 1500), REASK,
                  ("MC_Dialogue_thorough_a.cfg", "choice-dialogues-3-lines (safety)", 600000),
                  ("MC_Dialogue_thorough_b.cfg", "choice-dialogues-3-choices (safety)", 500000)],
 }
